@@ -80,6 +80,11 @@ func (vm *VM) runRecoverable() (err error) {
 	defer func() {
 		if panicking {
 			msg := recover()
+			// A panic raised by a channel operation (a send on a closed
+			// channel) leaves its select cases behind: drop them, or the
+			// next channel operation, in a deferred function, selects on
+			// them too.
+			vm.cases = vm.cases[:0]
 			err = vm.convertPanic(msg)
 		}
 	}()
